@@ -18,7 +18,7 @@ import traceback
 import numpy as np
 
 PROP = 'C07'
-TARGETS = ['T12', 'T13a', 'T13c', 'T13n']
+TARGETS = ['T12', 'T13a', 'T13c', 'T13n', 'T13d']
 LEAN_MODULES = ['HdVerif.Props.C07']
 MODEL_MODULES = ['HdVerif.Model.Codec']
 NAMESPACE = 'HdVerif.C07'
@@ -72,6 +72,10 @@ MUST_ACCEPT = [
     (JLS, 'uint8', 8, 8, None, 'MONOCHROME2', 0, None, (16, 16)),
     (JLS, 'uint16', 16, 16, None, 'MONOCHROME2', 0, None, (16, 16)),
     (JLS, 'uint8', 8, 8, 3, 'RGB', 0, 0, (16, 16)),
+] + [
+    # a 0 / 1 mask given in ANY integer dtype is packed into single bits (native, 1 bit allocated): signed and unsigned, 8-64 bit
+    (ts_, dt_, 1, 1, None, 'MONOCHROME2', 0, None, (4, 6)) for ts_ in (EXPLICIT, IMPLICIT)
+    for dt_ in ('uint8', 'uint16', 'uint32', 'uint64', 'int8', 'int16', 'int32', 'int64')
 ] + [
     # a mask held in bool cells with 8 bits allocated and k bits stored (0 / 1 fit every k >= 1): native cells of one byte
     (ts_, 'bool', 8, k_, None, 'MONOCHROME2', 0, None, (3, 5)) for ts_ in (EXPLICIT, IMPLICIT) for k_ in range(1, 9)
@@ -163,21 +167,51 @@ def _classify_exception(e):
 # documented as "enum member or its value"; 'r' = the raw value (str / int), 'm' = the enum member.  A generator
 # dimension of its own (guide 3a): the translated tree sees values only, so a comparison made before the argument is
 # normalised (`pixel_representation == 1` on a member) is visible to the oracle / L0 only if members are drawn.
-SPELLS = ['rrr', 'mmm', 'rmr', 'mrr', 'rrm', 'mmr', 'rmm', 'mrm']
+# 'o' = the optional argument is LEFT OUT (only when its value is the documented default: pixel representation 0, planar
+# configuration None; otherwise it is spelled raw)
+SPELLS = ['rrr', 'mmm', 'rmr', 'mrr', 'rrm', 'mmr', 'rmm', 'mrm', 'roo', 'mor', 'rro', 'mom']
+
+
+_OMIT = object()
+_DEFAULTS = {'pixel_representation': 0, 'planar_configuration': None}     # checked against the signatures by T13d / tie_defaults_agree
 
 
 def _spelled(pi, pr, pc, spell):
+    """-> (photometric interpretation, keyword arguments for the optional parameters)"""
     from highdicom.enum import PhotometricInterpretationValues, PixelRepresentationValues, PlanarConfigurationValues
     out = []
-    for v, s, cls in ((pi, spell[0], PhotometricInterpretationValues), (pr, spell[1], PixelRepresentationValues),
-                      (pc, spell[2], PlanarConfigurationValues)):
-        if s == 'm' and v is not None:
+    for name, v, s, cls in (('photometric_interpretation', pi, spell[0], PhotometricInterpretationValues),
+                            ('pixel_representation', pr, spell[1], PixelRepresentationValues),
+                            ('planar_configuration', pc, spell[2], PlanarConfigurationValues)):
+        if s == 'o' and name in _DEFAULTS and (v is _DEFAULTS[name] or (v is not None and v == _DEFAULTS[name] and type(v) is int)):
+            v = _OMIT
+        elif s == 'm' and v is not None:
             try:
                 v = cls(v)
             except ValueError:
                 pass            # not a value of the enum: stays raw (must be refused either way)
         out.append(v)
-    return tuple(out)
+    kw = {k: v for k, v in (('pixel_representation', out[1]), ('planar_configuration', out[2])) if v is not _OMIT}
+    return out[0], kw
+
+
+# TYPE of the integer parameters (bits allocated / stored, rows, columns, samples, index): Python int or a numpy integer scalar
+# (as taken from another array or a data set) -- documented as "int"; numpy scalars overflow in `2 ** bits_stored` unless converted
+NUMS = ['int', 'int', 'int', 'int8', 'int', 'int64', 'uint8', 'int', 'int16', 'uint16']
+
+
+def _num(v, kind):
+    if kind == 'int' or v is None or isinstance(v, bool) or not isinstance(v, int):
+        return v
+    t = np.dtype(kind).type
+    info = np.iinfo(kind)
+    return t(v) if info.min <= v <= info.max else v
+
+
+def _next_num(ctx):
+    k = getattr(ctx, '_c07_num', 0)
+    ctx._c07_num = k + 1
+    return NUMS[(k + 3 * ctx.seed) % len(NUMS)]
 
 
 def _next_spell(ctx):
@@ -186,20 +220,20 @@ def _next_spell(ctx):
     return SPELLS[(k + ctx.seed) % len(SPELLS)]
 
 
-def _encode(a, ts, ba, bs, pi, pr, pc, spell='rrr'):
+def _encode(a, ts, ba, bs, pi, pr, pc, spell='rrr', num='int'):
     from highdicom.frame import encode_frame
-    pi, pr, pc = _spelled(pi, pr, pc, spell)
+    pi, kw = _spelled(pi, pr, pc, spell)
     try:
-        return ('ok', encode_frame(a, ts, ba, bs, pi, pr, pc))
+        return ('ok', encode_frame(a, ts, _num(ba, num), _num(bs, num), pi, **kw))
     except Exception as e:  # noqa: BLE001
         return (_classify_exception(e), f'{type(e).__name__}: {str(e)[:100]}')
 
 
-def _decode(b, ts, rows, cols, samples, ba, bs, pi, pr, pc, spell='rrr'):
+def _decode(b, ts, rows, cols, samples, ba, bs, pi, pr, pc, spell='rrr', num='int'):
     from highdicom.frame import decode_frame
-    pi, pr, pc = _spelled(pi, pr, pc, spell)
+    pi, kw = _spelled(pi, pr, pc, spell)
     try:
-        return ('ok', decode_frame(b, ts, rows, cols, samples, ba, bs, pi, pr, pc))
+        return ('ok', decode_frame(b, ts, _num(rows, num), _num(cols, num), _num(samples, num), _num(ba, num), _num(bs, num), pi, **kw))
     except Exception as e:  # noqa: BLE001
         return ('err', f'{type(e).__name__}: {str(e)[:300]}')
 
@@ -317,13 +351,17 @@ class _Capped:
         self.ctx.fail(case, detail, site=site)
 
 
-def _check(ctx, kind, ts, dtype, ba, bs, samples, pi, pr, pc, a, reqs, pending, layout='c', must_accept=False, spell=None):
+def _check(ctx, kind, ts, dtype, ba, bs, samples, pi, pr, pc, a, reqs, pending, layout='c', must_accept=False, spell=None,
+           num=None):
     if spell is None:
         spell = _next_spell(ctx)
+    if num is None:
+        num = _next_num(ctx)
     ctx = _Capped(ctx)
     case = _case(kind, ts, dtype, ba, bs, samples, pi, pr, pc, a, layout)
     case['spell'] = spell
-    st, val = _encode(a, ts, ba, bs, pi, pr, pc, spell)
+    case['num'] = num
+    st, val = _encode(a, ts, ba, bs, pi, pr, pc, spell, num)
     spp = a.shape[2] if a.ndim > 2 else 1
     rows, cols = a.shape[0], a.shape[1]
     outcome = 'accepted' if st == 'ok' else ('refused' if st == 'validation' else 'codec-refused')
@@ -332,7 +370,7 @@ def _check(ctx, kind, ts, dtype, ba, bs, samples, pi, pr, pc, a, reqs, pending, 
     if st == 'ok' and a.size > 1 and a.min() != a.max():
         nontriv = (ts, dtype, ba, bs, samples, pi, (rows * cols) % 8, layout)
     ctx.case(sample=case if (st == 'ok' and ctx.evaluations % 211 == 0) else None, nontrivial_key=nontriv,
-             syntax=TSNAME.get(ts, ts), outcome=outcome, kind=kind, dtype=dtype, bits=f'{ba}/{bs}', spelling=spell,
+             syntax=TSNAME.get(ts, ts), outcome=outcome, kind=kind, dtype=dtype, bits=f'{ba}/{bs}', spelling=spell, integer_type=num,
              **({'layout': layout} if kind == 'frame' else {}))
     if st != 'ok':
         ctx.hist('refusal', (TSNAME.get(ts, ts), val.split(':')[0], st))
@@ -340,7 +378,7 @@ def _check(ctx, kind, ts, dtype, ba, bs, samples, pi, pr, pc, a, reqs, pending, 
     reqs.append(('encodeRouteRaw', _model_args(ts, ba, bs, pi, pr, pc, a)))
     pending.append((case, 'route', st))
     # ---- model: the refusal of `pack_bits` itself (1-bit native, content other than 0 / 1)
-    if st == 'codec' and ts in NATIVE and ba == 1 and a.dtype.kind in 'biu' and a.ndim in (2, 3) and a.size <= 2000:
+    if st == 'codec' and ts in NATIVE and ba == 1 and a.dtype.kind in 'biu' and a.dtype.itemsize <= 4 and a.ndim in (2, 3) and a.size <= 2000:
         reqs.append(('encodeFrame', {'ts': ts, 'ba': ba, 'bs': bs, 'pi': pi, 'pr': pr, 'planar': pc, 'rows': rows, 'cols': cols,
                                      'samples': (a.shape[2] if a.ndim > 2 else None), 'dtype': a.dtype.name,
                                      'data': np.asarray(a).astype(np.int64).reshape(-1).tolist()}))
@@ -355,7 +393,7 @@ def _check(ctx, kind, ts, dtype, ba, bs, samples, pi, pr, pc, a, reqs, pending, 
         if not fits:
             ctx.hist('content', 'a sample outside bits_stored was accepted')
         if True:
-            st2, dec = _decode(val, ts, rows, cols, spp, ba, bs, pi, pr, pc, spell)
+            st2, dec = _decode(val, ts, rows, cols, spp, ba, bs, pi, pr, pc, spell, num)
             shape_free = (a.ndim == 3 and a.shape[2] == 1)
             if st2 != 'ok':
                 ctx.fail(case, f'accepted, but decode_frame with the same parameters fails: {dec}', site='roundtrip')
@@ -379,7 +417,7 @@ def _check(ctx, kind, ts, dtype, ba, bs, samples, pi, pr, pc, a, reqs, pending, 
                 else:
                     edited = False
                     ctx.hist('decode_history', 'result not writeable')
-                st2b, again = _decode(val, ts, rows, cols, spp, ba, bs, pi, pr, pc, spell)
+                st2b, again = _decode(val, ts, rows, cols, spp, ba, bs, pi, pr, pc, spell, num)
                 if st2b != 'ok':
                     ctx.fail(case, f'the second decode_frame call with equal arguments fails: {again}', site='decode-history')
                 else:
@@ -412,7 +450,7 @@ def _check(ctx, kind, ts, dtype, ba, bs, samples, pi, pr, pc, a, reqs, pending, 
                 ctx.hist('codec_law', (TSNAME[ts], 'in codecRegion' if in_region else 'outside codecRegion',
                                        'held' if held else 'BROKEN'))
             # ---- model L1: native bytes and decode values
-            if ts in NATIVE and a.dtype.kind in 'biu' and a.size <= 2000:
+            if ts in NATIVE and a.dtype.kind in 'biu' and a.dtype.itemsize <= 4 and a.size <= 2000:
                 fa = {'ts': ts, 'ba': ba, 'bs': bs, 'pi': pi, 'pr': pr, 'planar': pc, 'rows': rows, 'cols': cols,
                       'samples': (a.shape[2] if a.ndim > 2 else None), 'dtype': a.dtype.name,
                       'data': np.asarray(a).astype(np.int64).reshape(-1).tolist()}
@@ -505,6 +543,17 @@ def _cells(ctx, reqs, pending):
             a[shp[0] - 1, shp[1] - 1] = bad
             _check(ctx, 'side-onebit-content', ts, dt, 1, 1, None, 'MONOCHROME2', 0, None, a, reqs, pending)
             side += 1
+    # optional arguments LEFT OUT on both sides (pixel representation, planar configuration, index): what is then encoded must decode,
+    # with the same arguments left out, to the same frame -- signed arrays with negative samples included (refused or round trip)
+    for ts in (IMPLICIT, EXPLICIT, RLE, JLS):
+        for dt, ba, bs in (('int16', 16, 16), ('int16', 16, 12), ('int8', 8, 8), ('uint16', 16, 12), ('uint8', 8, 8), ('int32', 32, 32)):
+            shp = (16, 16) if ts == JLS else (3, 5)
+            a = _mk_array(ctx.np_rng('side-defaults', side), dt, shp, ba, bs, 1 if dt.startswith('int') else 0)
+            if dt.startswith('int') and a.size:
+                a.flat[a.size // 2] = -1
+            for spell in ('roo', 'moo'):
+                _check(ctx, 'side-defaults', ts, dt, ba, bs, None, 'MONOCHROME2', 0, None, a, reqs, pending, spell=spell)
+            side += 1
     # masks held in bool cells with 8 / k and 16 / k bits (allocated / stored): refused, or exact round trip
     for ts in (IMPLICIT, EXPLICIT, RLE, JLS):
         for ba, ks in ((8, range(1, 9)), (16, (1, 7, 8, 9, 15, 16))):
@@ -532,6 +581,8 @@ def _must_accept(ctx, reqs, pending):
         a = _mk_array(ctx.np_rng('must', i), dt, shape, ba, bs, pr)
         for spell in SPELLS:
             _check(ctx, 'must', ts, dt, ba, bs, s, pi, pr, pc, a, reqs, pending, must_accept=True, spell=spell)
+        for num in ('int8', 'uint8', 'int16', 'int64'):
+            _check(ctx, 'must', ts, dt, ba, bs, s, pi, pr, pc, a, reqs, pending, must_accept=True, spell='rrr', num=num)
 
 
 def _frames(ctx, reqs, pending):
@@ -649,9 +700,9 @@ def _decode_routes(ctx, reqs, pending):
         n = 8 * s
         payload = bytes(n * max(1, ba // 8))
         spell = SPELLS[(k + ctx.seed) % len(SPELLS)]
-        pi_s, pr_s, pc_s = _spelled(pi, pr, pc, spell)
+        pi_s, kw_s = _spelled(pi, pr, pc, spell)
         try:
-            decode_frame(payload, ts, 2, 4, s, ba, ba, pi_s, pr_s, pc_s)
+            decode_frame(payload, ts, 2, 4, s, ba, ba, pi_s, **kw_s)
             st = 'ok'
         except Exception as e:  # noqa: BLE001
             st = _classify_exception(e)
@@ -729,7 +780,7 @@ def replay(ctx, case):
         a = _array_of_case(case)
         _check(sub, case.get('kind', 'frame'), case['ts'], case['dtype'], case['ba'], case['bs'], case['samples'], case['pi'],
                case['pr'], case['pc'], a, reqs, pending, layout=case.get('layout', 'c'), must_accept=case.get('kind') == 'must',
-               spell=case.get('spell', 'rrr'))
+               spell=case.get('spell', 'rrr'), num=case.get('num', 'int'))
         keep = lambda c: True   # noqa: E731
     else:
         return None
